@@ -34,6 +34,10 @@ Proof.
   destruct k; cbn; repeat split; try discriminate; try reflexivity; intros; congruence.
 Qed.
 
+(* the root setter returns early when the node is the current root, before _copy_root_siblings *)
+Lemma setter_generated : GenDoc.gen_setter_returns_on_same_root = true.
+Proof. reflexivity. Qed.
+
 Lemma str_encoding_generated : L_UTF8 = GenDoc.gen_str_encoding.
 Proof. reflexivity. Qed.
 
